@@ -171,13 +171,20 @@ structure State where
   taxo : TaxoState
   deriving DecidableEq, Repr, Inhabited
 
-/-- `ProgramParser.__call__(program)`; the new state is returned even when an exception propagates. -/
-def parseStep (E : Engines) (S : State) (p : Program) : State × Except Exc (List Label) :=
+/-- `ProgramParser.__call__(program)`; the new state is returned even when an exception propagates.
+
+`resets` models the call `pseudo_hash.reset()` at the top of `flatten_ast` (flatten_ast.py:369): when it
+is there (`true`, the code as written) the expressions are hashed from a reset counter; without it
+(`false`) they would be hashed from the INCOMING counter and cache `S.hash`, left by the previous
+program. The real code is `parseStep` = `parseStepG … true`; `C03_no_reset_breaks` shows that the
+independence theorems fail for `false`, i.e. that they really depend on that line. -/
+def parseStepG (E : Engines) (resets : Bool) (S : State) (p : Program) :
+    State × Except Exc (List Label) :=
   match p.parsed with
   | .invalid e => (S, .ok [{ name := sAst ++ e, spans := [(1, (p.lines : Int), [])] }])
   | .empty => (S, .ok [{ name := sAst ++ sEmpty, spans := [(1, (p.lines : Int), [])] }])
   | .tree reprs =>
-    let (h, values) := HashState.reset.callAll reprs
+    let (h, values) := (if resets then HashState.reset else S.hash).callAll reprs
     match p.regexLabels values with
     | .error e => ({ S with hash := h }, .error e)
     | .ok labels0 =>
@@ -188,18 +195,27 @@ def parseStep (E : Engines) (S : State) (p : Program) : State × Except Exc (Lis
         | (s2, .error e) => ({ S with hash := h, sql := s2 }, .error e)
         | (s2, .ok result) => ({ S with hash := h, sql := s2.delete }, .ok result)
 
+/-- The code as written: `flatten_ast` resets the counter. -/
+def parseStep (E : Engines) (S : State) (p : Program) : State × Except Exc (List Label) :=
+  parseStepG E true S p
+
 /-- `Taxonomy.to_taxa(labels)` -/
 def taxaStep (E : Engines) (S : State) (labels : List Label) : State × List Taxon :=
   let (T, rs) := translateAll E S.taxo labels
   ({ S with taxo := T }, E.assemble rs)
 
 /-- Tagging one program with the process-wide parser and taxonomy: labels, then taxa. -/
-def step (E : Engines) (S : State) (p : Program) : State × Except Exc (List Label × List Taxon) :=
-  match parseStep E S p with
+def stepG (E : Engines) (resets : Bool) (S : State) (p : Program) :
+    State × Except Exc (List Label × List Taxon) :=
+  match parseStepG E resets S p with
   | (S1, .error e) => (S1, .error e)
   | (S1, .ok labels) =>
     let (S2, taxa) := taxaStep E S1 labels
     (S2, .ok (labels, taxa))
+
+/-- The code as written. -/
+def step (E : Engines) (S : State) (p : Program) : State × Except Exc (List Label × List Taxon) :=
+  stepG E true S p
 
 /-- A fresh process: `ProgramParser()` + `Taxonomy()` just constructed. -/
 def init (literal : List (Name × List Name)) : State :=
